@@ -218,8 +218,11 @@ def main():
         lsites[fn] = error_sites(func_body(lpatch, r"^func \(p Patch\) " + fn + r"\(") or "")
     facts["legacyErrorSites"] = lsites
     # package-level variables (shared state inventory)
-    facts["packageVars"] = sorted(set(re.findall(r"^var ([A-Za-z_][A-Za-z0-9_]*)\b", patch + merge, re.M))
-                                  | set(re.findall(r"^\t([A-Za-z_][A-Za-z0-9_]*)\s+(?:bool|int64)?\s*= ", (re.search(r"^var \((.*?)^\)", patch, re.S | re.M) or [None, ""])[1] if re.search(r"^var \((.*?)^\)", patch, re.S | re.M) else "", re.M)))
+    pv = set(re.findall(r"^var ([A-Za-z_][A-Za-z0-9_]*)\b", patch + merge, re.M))
+    for blk in re.findall(r"^var \((.*?)^\)", patch + "\n" + merge, re.S | re.M):
+        # every identifier declared in a `var ( … )` block, with or without a type or initialiser
+        pv |= set(re.findall(r"^\t([A-Za-z_][A-Za-z0-9_]*)\b", blk, re.M))
+    facts["packageVars"] = sorted(pv)
     ijson_vars = set()
     for f in sorted(os.listdir(os.path.join(repo, "v5/internal/json"))):
         if f.endswith(".go") and not f.endswith("_test.go") and f != "verif_hook.go":
